@@ -9,8 +9,21 @@ Kinds == {"peer", "chunk", "register", "scratchpad", "transaction", "recordkey"}
 Sizes == {0, 1, 4, 5, 6, 21}
 Counts == {0, 2, 5, 99}              \* 99 = more than there are
 Ranges == {"none", "below", "equal", "above"}
-Cases == {[kind |-> k, size |-> s, count |-> c, range |-> r, near |-> n] :
+Base == {[kind |-> k, size |-> s, count |-> c, range |-> r, near |-> n, variant |-> "plain"] :
              k \in Kinds, s \in Sizes, c \in Counts, r \in Ranges, n \in BOOLEAN}
+\* degenerate peer sets and counts (CloseGroupSize = 5: sizes 4, 5, 6 are one below / exactly / one above a close group):
+\*   counts 1 and 98 = "all but one" on plain sets;
+\*   "self": the target is itself one of the peers (distance zero must sort first and lie within every range);
+\*   "dup": a peer occurs twice;  "selfdup": the duplicated peer is the target
+DegSizes == {1, 4, 5, 6, 21}
+Degenerate ==
+         {[kind |-> k, size |-> s, count |-> c, range |-> r, near |-> FALSE, variant |-> "plain"] :
+             k \in {"peer", "chunk"}, s \in DegSizes, c \in {1, 98}, r \in Ranges}
+    \cup {[kind |-> "peer", size |-> s, count |-> c, range |-> r, near |-> FALSE, variant |-> v] :
+             s \in DegSizes, c \in {1, 5, 98, 99}, r \in Ranges, v \in {"self", "selfdup"}}
+    \cup {[kind |-> k, size |-> s, count |-> c, range |-> r, near |-> FALSE, variant |-> "dup"] :
+             k \in {"peer", "chunk"}, s \in DegSizes \ {1}, c \in {1, 5, 98, 99}, r \in Ranges}
+Cases == Base \cup Degenerate
 
 Small == {[i \in 1..32 |-> IF i = 1 THEN x ELSE IF i = 32 THEN y ELSE 0] : x \in {0, 1, 128, 255}, y \in {0, 1, 255}}
 
